@@ -310,9 +310,10 @@ func ZZC13Doc() {
 func ZZC13Pairs() {
 	pairs := [][3]string{
 		// schema A, schema B, document ("" = compare Check only)
-		{`1 // {or: [{type: "integer", enum: [1, 2]}, {type: "string"}]}`, `1 // {or: [{"type": "integer", "enum": [1, 2]}, {"type": "string"}]}`, `2`},
 		{`1 // {or: [{type: "integer", min: 1}, {type: "string", minLength: 1}]}`, `1 // {"or": [{"type": "integer", "min": 1}, {"type": "string", "minLength": 1}]}`, `"s"`},
 		{`"s" // {enum: ["s", "t"]}`, `"s" // {"enum": ["s", "t"]}`, `"t"`},
+		{`1 // {or: [{enum: [1, 2]}, {type: "string"}]}`, `1 // {or: [{"enum": [1, 2]}, {"type": "string"}]}`, `2`},
+		{`1 // {or: [{enum: [1, 2]}, {type: "string"}]}`, `1 /* {"or": [{"enum": [1, 2]}, {type: "string"}]} */`, `"s"`},
 		{"{ // {additionalProperties: \"string\"}\n  \"a\": 1\n}", "{ // {\"additionalProperties\": \"string\"}\n  \"a\": 1\n}", `{"a":1,"b":"x"}`},
 	}
 	p := pairs[v.Choose(0, len(pairs)-1)]
@@ -321,6 +322,8 @@ func ZZC13Pairs() {
 	sa, sb := jschema.New("a", p[0]), jschema.New("b", p[1])
 	ea, eb := sa.Check(), sb.Check()
 	v.Assert((ea == nil) == (eb == nil), "C13/check-verdict-changes-with-spelling")
+	// the pairs are meant to be accepted: a pair that both spellings reject compares nothing
+	v.Assert(ea == nil, "C13/pair-rejected-by-check")
 	if ea == nil && eb == nil {
 		ra := sa.Validate(json.New("d", p[2]))
 		rb := sb.Validate(json.New("d", p[2]))
